@@ -13,7 +13,7 @@ from simcan import world
 from simcan.bus import PeerEndpoint
 from simcan.core import HarnessError, Hang, MS, SEC, US
 from simcan.models.sdo_server import RefSdoServer
-from simcan.util import call, lenclass, site
+from simcan.util import call, lenclass, site, need_bytes
 
 ID = "C01"
 LEVEL = "exploration"
@@ -558,7 +558,7 @@ def _upload(ctx, ch, node, srv, index, sub, length, api, style, okind, ntype, sa
     if exc is not None:
         ctx.violation("C01/upload-raised/%s@%s" % (type(exc).__name__, site(exc)),
                       "%s (%s) raised %r" % (what, chunk_class, exc))
-    got = bytes(res)
+    got = need_bytes(ctx, "C01", res, what)
     if got != expected:
         if okind.startswith("num"):
             ctx.violation("C01/upload-numeric-truncation",
